@@ -19,50 +19,75 @@
 (*   SlicesCover  the slices pushed by a stage partition the next batch     *)
 (*   Shape        the number of results equals the number of tapes of the   *)
 (*                level they belong to, at every step of the unwinding      *)
+(* With a classical cotransform on the last stage (hybrid gradient         *)
+(* transforms) every tape ENTERING that stage contributes its own classical *)
+(* Jacobian: results carry Node(CotK, t, ..) and Routing demands that t is  *)
+(* the tape whose gradient is being chained (per-tape, not per-transform).  *)
 (***************************************************************************)
 EXTENDS PipelineOps
 CONSTANTS C,            \* number of tape colours
           MaxFan,       \* maximal fan-out of a stage
           MaxStages, MaxBatch,
-          Mut           \* 0 = the algorithm as documented;  1 = negative control of the model: a stage that forgets to
-                        \*     advance `start` (every slice begins at 0) -- Routing must then be violated
-VARIABLES pipe, batch, s, cur, stack, phase, res, leaves, allsl
-vars == <<pipe, batch, s, cur, stack, phase, res, leaves, allsl>>
+          CotStages,    \* pipelines of 1..CotStages stages (on a one-tape batch, as a QNode gives) are also explored with a
+                        \* CLASSICAL COTRANSFORM on their last stage (a hybrid gradient transform)
+          Muts          \* {0} = the algorithm as documented.  Negative controls of the model (Routing must fail for each):
+                        \*   1 = a stage that forgets to advance `start` (every slice begins at 0)
+                        \*   2 = the classical Jacobian looked up per transform only (every tape gets the one of tape 0)
+VARIABLES pipe, batch, s, cur, stack, phase, res, leaves, allsl, cot, mut
+vars == <<pipe, batch, s, cur, stack, phase, res, leaves, allsl, cot, mut>>
 Base == MaxFan + 1
+CotK == 99              \* tag of the classical cotransform node: Node(CotK, t, <<x>>) = "x chained with the classical Jacobian of tape t"
 
 Tables == [0..(C - 1) -> 0..MaxFan]
 Pipes == UNION {[1..n -> Tables] : n \in 0..MaxStages}
 Batches == UNION {[1..n -> 0..(C - 1)] : n \in 0..MaxBatch}
 Roots(b) == [i \in 1..Len(b) |-> [id |-> i, c |-> b[i]]]
 
-InitWith(p, b) == /\ pipe = p /\ batch = b /\ s = 1 /\ cur = Roots(b) /\ stack = <<>> /\ phase = "xform"
-                  /\ res = <<>> /\ leaves = <<>> /\ allsl = <<>>
-Init == \E p \in Pipes, b \in Batches : InitWith(p, b)
+InitWith(p, b, ct, m) == /\ pipe = p /\ batch = b /\ s = 1 /\ cur = Roots(b) /\ stack = <<>> /\ phase = "xform"
+                         /\ res = <<>> /\ leaves = <<>> /\ allsl = <<>> /\ cot = ct /\ mut = m
+Init == \E p \in Pipes, b \in Batches, m \in Muts :
+          \E ct \in (IF Len(p) >= 1 /\ Len(p) <= CotStages /\ Len(b) = 1 THEN BOOLEAN ELSE {FALSE}) :
+             (m = 2 => ct) /\ InitWith(p, b, ct, m)
 
 \* for bound_transform in self:  new_tapes, fn = transform(tape); slices.append(slice(start, end)); ...
+\*     jac = cotransform_cache.get_classical_jacobian(bound_transform, tape_idx)
+\*     classical_fns.append(partial(cotransform, cjac=jac, tape=tape))
+\* if cotransform: stack.append(classical batch post-processing, fn i on results[i]);  stack.append(batch post-processing)
+\* The classical Jacobian of a tape is a function of the tape (its gate parameters' dependence on the QNode arguments):
+\* symbolically it IS the tape's identity.
 \* (values are bound with \E x \in {e} so that TLC evaluates each of them once)
 Stage == /\ phase = "xform" /\ s <= Len(pipe)
          /\ \E kids \in {[i \in 1..Len(cur) |-> Children(cur[i], pipe[s], Base, C)]} :
             \E fans \in {[i \in 1..Len(cur) |-> Len(kids[i])]} :
-            \E sl \in {IF Mut = 1 THEN [i \in 1..Len(cur) |-> [lo |-> 0, hi |-> fans[i]]] ELSE SlicesOf(fans)} :
+            \E sl \in {IF mut = 1 THEN [i \in 1..Len(cur) |-> [lo |-> 0, hi |-> fans[i]]] ELSE SlicesOf(fans)} :
+            \E q \in {[i \in 1..Len(cur) |-> [lo |-> sl[i].lo, hi |-> sl[i].hi, t |-> cur[i], k |-> s]]} :
+            \E cl \in {[i \in 1..Len(cur) |-> [lo |-> i - 1, hi |-> i, t |-> IF mut = 2 THEN cur[1] ELSE cur[i], k |-> CotK]]} :
             /\ cur' = Flatten(kids)
-            /\ stack' = Append(stack, [i \in 1..Len(cur) |-> [lo |-> sl[i].lo, hi |-> sl[i].hi, t |-> cur[i], k |-> s]])
+            /\ stack' = IF cot /\ s = Len(pipe) THEN Append(Append(stack, cl), q) ELSE Append(stack, q)
             /\ allsl' = Append(allsl, [i \in 1..Len(cur) |-> <<sl[i].lo, sl[i].hi>>])      \* observation: the slices of every stage
-         /\ s' = s + 1 /\ UNCHANGED <<pipe, batch, phase, res, leaves>>
+         /\ s' = s + 1 /\ UNCHANGED <<pipe, batch, phase, res, leaves, cot, mut>>
 \* the caller executes the batch returned by the pipeline
 Execute == /\ phase = "xform" /\ s > Len(pipe)
            /\ res' = [i \in 1..Len(cur) |-> Leaf(cur[i])] /\ leaves' = [i \in 1..Len(cur) |-> cur[i].id]
-           /\ phase' = "post" /\ UNCHANGED <<pipe, batch, s, cur, stack, allsl>>
+           /\ phase' = "post" /\ UNCHANGED <<pipe, batch, s, cur, stack, allsl, cot, mut>>
 \* for postprocessing in reversed(stack): results = tuple(fn(results[sl]) for fn, sl in zip(fns, slices))
 Post == /\ phase = "post" /\ stack # <<>>
         /\ LET top == stack[Len(stack)] IN
            res' = [i \in 1..Len(top) |-> Node(top[i].k, top[i].t, SubSeq(res, top[i].lo + 1, top[i].hi))]
-        /\ stack' = SubSeq(stack, 1, Len(stack) - 1) /\ UNCHANGED <<pipe, batch, s, cur, phase, leaves, allsl>>
-Finish == /\ phase = "post" /\ stack = <<>> /\ phase' = "done" /\ UNCHANGED <<pipe, batch, s, cur, stack, res, leaves, allsl>>
+        /\ stack' = SubSeq(stack, 1, Len(stack) - 1) /\ UNCHANGED <<pipe, batch, s, cur, phase, leaves, allsl, cot, mut>>
+Finish == /\ phase = "post" /\ stack = <<>> /\ phase' = "done" /\ UNCHANGED <<pipe, batch, s, cur, stack, res, leaves, allsl, cot, mut>>
 Next == Stage \/ Execute \/ Post \/ Finish
 
-Expected == [i \in 1..Len(batch) |-> R(Roots(batch)[i], 1, pipe, Base, C)]
-Routing == phase = "done" => res = Expected
+\* reference semantics with the classical cotransform: the gradient of tape t is chained with the Jacobian of t ITSELF
+RECURSIVE RC(_, _)
+RC(t, st) ==
+  IF st > Len(pipe) THEN Leaf(t)
+  ELSE LET ch == Children(t, pipe[st], Base, C)
+           body == Node(st, t, [j \in 1..Len(ch) |-> RC(ch[j], st + 1)]) IN
+       IF cot /\ st = Len(pipe) THEN Node(CotK, t, <<body>>) ELSE body
+Expected == IF cot THEN [i \in 1..Len(batch) |-> RC(Roots(batch)[i], 1)]
+            ELSE [i \in 1..Len(batch) |-> R(Roots(batch)[i], 1, pipe, Base, C)]
+Routing == (phase = "done" /\ mut = 0) => res = Expected
 SlicesCover == \A lv \in 1..Len(stack) :
                  LET e == stack[lv] IN
                  /\ \A i \in 1..Len(e) : e[i].lo <= e[i].hi /\ (i > 1 => e[i].lo = e[i - 1].hi)
